@@ -37,6 +37,8 @@ def _w(name, h, sh, params=None, kind='automaton'):
 
 
 def families(tier, seed):
+    from contracts import context_ops as co
+    from ovc.worlds import Shape as _Shape
     out = list()
     for sh in shapes.family(tier, seed):
         out.append(_w('prime/unprime', ph.h_prime_unprime, sh))
@@ -61,6 +63,10 @@ def families(tier, seed):
                        name=f'x:{lo}..{hi} constant k:0..2')
             out.append(_w('hint formulas / implies_type_hints', ph.h_hint_formulas, sh,
                           dict(hint=(lo, hi))))
+    for hint0, hint1 in (((-3, -3), (-2, 1)), ((0, 3), (0, 1))):
+        shl = _Shape(sys=dict(a=hint0), name=f'a:{hint0}, then a_0:{hint1} declared separately')
+        out.append(dict(name=f'support with an identifier named like a bit [{shl.name}]',
+                        run=(lambda shl=shl, hint1=hint1: harness.verify(co.h_support_lookalike_int, shl, dict(hint=hint1), kind='context')), label='per-shape'))
     return out
 
 
